@@ -239,7 +239,7 @@ def _residue(loop):
 
 def execute(build, prefix=(), *, eager=False, salt=1, fine=False, horizon=5000,
             k2_budget=2, idle_only=False, k1=True, residue=False, keep_world=False,
-            controller=None):
+            controller=None, env_budget=None, cuts=None):
     """Run one execution.  ``build(world)`` returns the main coroutine function."""
     _state["n"] = 0
     _state["salt"] = salt
@@ -248,6 +248,13 @@ def execute(build, prefix=(), *, eager=False, salt=1, fine=False, horizon=5000,
     if controller is not None:
         ctl = controller
         chooser = ctl.chooser
+    elif env_budget is not None:
+        from .vloop import EnvController
+
+        chooser = Chooser(prefix)
+        ctl = EnvController(chooser, env_budget)
+        ctl.horizon = horizon
+        ctl.cut_offsets = cuts
     else:
         chooser = Chooser(prefix)
         ctl = Controller(chooser, fine=fine, horizon=horizon, k2_budget=k2_budget,
@@ -255,6 +262,8 @@ def execute(build, prefix=(), *, eager=False, salt=1, fine=False, horizon=5000,
     loop = VLoop(ctl)
     loop.set_task_factory(_eager_factory if eager else _plain_factory)
     world = World(loop, ctl, {"eager": eager, "salt": salt, "fine": fine})
+    if env_budget is not None:
+        ctl.world = world
     ex = Execution()
     ex.residue = None
     ex.detail = None
